@@ -156,6 +156,7 @@ func main() {
 			}()
 			runControls(c, rep)
 			pd.run(c, rep)
+			auditExtras(c, rep)
 			if c.Tier == "thorough" {
 				thoroughExtras(c, rep)
 			}
